@@ -202,6 +202,17 @@ def contents(tier):
                 custom[0]['note'] = a
                 custom[n - 1]['Zeta'] = b
                 yield 'sparse-custom', Content(par, ids, links, fields, custom)
+    # custom attribute names that the library itself gives a meaning elsewhere (printing, charts) or that resemble its columns:
+    # in the file they are ordinary custom columns
+    for par, ids, links in shapes[1:3]:
+        n = len(par)
+        for nm in ('print_color', 'gantt_section', 'gantt_bar_style', 'gantt_text_style', 'network_bar_style', 'tag', 'Name', 'ID',
+                   'title', 'level', 'color', 'units', 'calendar'):
+            for val in ('92m', 'x y'):
+                fields = [{'name': 'n%d' % k} for k in range(n)]
+                custom = [{} for _ in range(n)]
+                custom[n - 1][nm] = val
+                yield 'custom-names', Content(par, ids, links, fields, custom)
     # dates / numbers / flags
     for par, ids, links in shapes[:2]:
         n = len(par)
